@@ -183,6 +183,14 @@ def main():
             for ti in range(2):
                 for di in range(3):
                     cases.append(make_case(ck, tu, None, ti, di, 'degenerate-' + alpha))
+    # counts in the thousands: neighbouring dependencies that differ by a few 1e-7 in absolute value (1/1999 against 1/2000)
+    # and by 5e-4 in relative value - far beyond rounding, still a dip
+    big = [['w', 'x', 'y', 'z']] + [['w']] * 1998 + [['x']] * 1999
+    big2 = [['z', 'y', 'x', 'w']] + [['w', 'q']] * 1998 + [['x', 'q']] * 1999
+    for di in range(3):
+        cases.append(make_case(ck, big, None, 0, di, 'large-counts'))
+        cases.append(make_case(ck, [big[0], ['w', 'x']], big[1:] + [big[0]], 0, di, 'large-counts'))
+        cases.append(make_case(ck, big2, None, di % 2, di, 'large-counts'))
     # malformed stream: blank lines, extra whitespace, empty text (correspondence only)
     for text in ([], [''], ['a b', '', 'c d e'], ['  a  b ', 'c\td'], ['a b c', ' '], ['a\xa0b c d']):
         for ti in range(2):
